@@ -15,7 +15,7 @@ for src in ("/tmp/seedout", "/tmp/seedout2"):
             done = "coordinator_verification" in json.load(open(mp))
         except Exception:
             pass
-        if not done or pid in redo or f"{pid}/{mk}" in redo:
+        if not done or pid in redo or f"{pid}/{mk}" in redo or "all" in redo:
             jobs.append((pid, mk, src))
 print(len(jobs), "to verify:", " ".join(f"{p}/{m}" for p, m, _ in jobs))
 def one(j):
